@@ -10,6 +10,7 @@ import (
 	"path/filepath"
 	"sort"
 	"strconv"
+	"strings"
 	"time"
 
 	"lvcheck/internal/core"
@@ -55,6 +56,23 @@ func main() {
 		fmt.Printf("lvcheck: %v\n", err)
 		fmt.Printf("VIOLATION property=%s replay=%s\n", *prop, path)
 		os.Exit(1)
+	}
+	// several properties in one process share the loaded program (used by the seeded-change sweep)
+	if strings.Contains(*prop, ",") || *prop == "all" {
+		ids := strings.Split(*prop, ",")
+		if *prop == "all" {
+			ids = nil
+			for i := 1; i <= 20; i++ {
+				ids = append(ids, fmt.Sprintf("C%02d", i))
+			}
+		}
+		rc := 0
+		for _, id := range ids {
+			if r := core.RunProperty(prog, id, *tier, seed, *verif, time.Now(), *verbose); r != 0 && rc == 0 {
+				rc = r
+			}
+		}
+		os.Exit(rc)
 	}
 	os.Exit(core.RunProperty(prog, *prop, *tier, seed, *verif, start, *verbose))
 }
